@@ -548,7 +548,11 @@ impl SegmentIndex {
         drop(writer); // Ensure file handle is closed before rename
 
         // Atomic rename: on most filesystems, this is an atomic operation
+        #[cfg(sneldb_verif)]
+        crate::verif::point("segidx.tmp_written");
         std::fs::rename(&tmp_path, &path)?;
+        #[cfg(sneldb_verif)]
+        crate::verif::point("segidx.renamed");
 
         // Sync parent directory to ensure rename is persisted
         if let Some(parent) = path.parent() {
